@@ -11,6 +11,9 @@ PY = "bourse"
 # safe Rust only in the code under analysis: bounds / overflow / unwrap failures are explicit panics
 # and stay checked; CBMC's raw-pointer validity checks add nothing but formula size.
 FAST = ("--no-memory-safety-checks", "--no-assertion-reach-checks")
+# the token tape of the serde round-trip harnesses is a 160-element array: CBMC keeps arrays field-sensitive
+# (element-wise constant propagation) only up to 64 elements by default
+TAPE_ARGS = ("--cbmc-args", "--max-field-sensitivity-array-size", "200")
 
 BOOK_FUNCS = [
     "OrderBook::{create_order,create_and_place_order,place_order,place_bid_limit,place_ask_limit,place_bid_market,"
@@ -191,14 +194,19 @@ P("C07",
   "cancelled, rejected orders, trading on or off) the loaded book carries every scalar, every order record with its stored queue key and every trade unchanged, both "
   "side indexes hold exactly the active orders under those keys (rebuilt == incrementally maintained is re-asserted after every operation kind by C01-C06's "
   "harnesses, whose pre-states are all built through this very code path, i.e. every one of them is a lock-step continuation of a LOADED book against the reference engine), "
-  "every view equals the recomputation, and the next queue time lies after every resting key.",
+  "every view equals the recomputation, and the next queue time lies after every resting key. The derived Serialize / Deserialize implementations themselves (field names, skip_serializing, "
+  "try_from, serde_as) are run end to end against a token-tape data format (no text): saving then loading a book / a two-asset market gives back equal scalars, records, keys, trades and side indexes.",
   [book("c07_reload_m2", "try_from on an arbitrary 2-entry table + 1 arbitrary trade record", covers=["cover.two_sided_book", "cover.unplaced_and_active_orders_present"], timeout=600),
    book("c07_reload_m3", "try_from on an arbitrary 3-entry table", covers=["cover.two_sided_book", "cover.unplaced_and_active_orders_present"], timeout=1200, tiers=("thorough",)),
+   book("c07_serde_roundtrip_m1", "save -> load of an arbitrary 1-order / 1-trade book through the DERIVED Serialize / Deserialize implementations (field names, skip attributes, try_from = OrderBookState) over a token tape: every scalar, record, key, trade and both side indexes of the loaded book equal the saved one's",
+        covers=["cover.resting_order_saved_while_trading_disabled", "cover.unplaced_order_saved", "cover.rejected_order_saved"], timeout=900, extra=FAST + TAPE_ARGS),
+   book("c07_serde_market_roundtrip_m1", "save -> load of a Market<2> (one arbitrary order per asset, ticks 1 and 3) through the derived implementations incl. the serde_as array adapter: each asset's book comes back in its own slot, equal to the saved one",
+        covers=["cover.assets_differ"], timeout=1500, extra=FAST + TAPE_ARGS),
    book("c01_place_bid_limit_m2", "continuation of a loaded book: placement == reference engine; side indexes == rebuild"),
    book("c06_modify_with_price_m2", "continuation of a loaded book: re-pricing modification == reference engine; side indexes == rebuild"),
    book("c01_cancel_m2", "continuation of a loaded book: cancel == reference; side indexes == rebuild", timeout=600)],
   bounds="tables of 2 (3 thorough) arbitrary entries, 1 arbitrary trade record, 2 published levels",
-  outside="the JSON TEXT layer (serde_json over byte strings of symbolic length), files, pretty vs compact, truncated files, the derive attributes themselves (a skipped or renamed field is not visible to these harnesses), Market (an array of books decoded by the same per-book path)")
+  outside="the JSON TEXT layer (serde_json's writer and parser over byte strings), files, pretty vs compact, truncated files; derived round trips of books with 2+ orders (rustc encodes Option<OrderEntry> in the niche of the entry's Status byte, which makes 'has the Vec visitor stopped?' path-dependent for the symbolic executor; the per-entry code is the same for every entry)")
 
 # ----------------------------------------------------------------------------------------------
 # step_sim crate (bourse-de)
